@@ -807,7 +807,7 @@ class OdeSystem(object):
             integrator_kwargs['atol'] = self.atol
             integrator_kwargs['rtol'] = self.rtol
 
-            if self.__method.symplectic and not self.__method.is_implicit:
+            if self.__method.symplectic and issubclass(self.__method, integrators.ExplicitSymplecticIntegrator):
                 integrator_kwargs['staggered_mask'] = self.staggered_mask
 
             if self.integrator:
